@@ -1097,12 +1097,12 @@ impl super::MainState {
                             if mode_set {
                                 if !user.modes.local_oper {
                                     if self.oper_config_idxs.contains_key(user_nick) {
-                                        user.modes.oper = true;
                                         if !user.modes.oper {
                                             state.operators_count += 1;
                                             // put to applied modes
                                             set_modes_string.push('O');
                                         }
+                                        user.modes.oper = true;
                                     } else {
                                         self.feed_msg(
                                             &mut conn_state.stream,
@@ -1113,11 +1113,11 @@ impl super::MainState {
                                 }
                             } else if user.modes.oper {
                                 user.modes.oper = false;
-                                if !user.modes.oper {
+                                if !user.modes.local_oper {
                                     state.operators_count -= 1;
-                                    // put to applied modes
-                                    unset_modes_string.push('O');
                                 }
+                                // put to applied modes
+                                unset_modes_string.push('O');
                             }
                         }
                         _ => (),
